@@ -37,7 +37,7 @@ func baseKnobs(name string) dbcheck.Knobs {
 func TestVerifC10(t *testing.T) {
 	k := baseKnobs("C10")
 	k.Ingest, k.Excise, k.Reopen = true, true, true
-	runCrashDeck(t, "C10", "main", Options{Prop: "C10", Knobs: k, CloneEvery: 5, Depth: 1, AllowMixed: true}, 12, 300,
+	runCrashDeck(t, "C10", "main", Options{Prop: "C10", Knobs: k, CloneEvery: 5, PostSyncEvery: 6, Depth: 1, AllowMixed: true}, 12, 300,
 		"Single-writer histories mixing Sync / NoSync / ApplyNoSyncWait+SyncWait commits, large batches, WAL rotation (small memtables), flushes, "+
 			"automatic and manual compactions, MANIFEST rotation, ingests, excises and close/reopen. Oracle (contains form): the recovered state must "+
 			"equal the model state of a WAL prefix P >= last durable unit, united with every acknowledged ingest/excise.")
@@ -68,7 +68,7 @@ func TestVerifC12(t *testing.T) {
 	k.Reopen = true
 	k.MaintHeavy = true
 	k.Ingest = true
-	runCrashDeck(t, "C12", "main", Options{Prop: "C12", Knobs: k, CloneEvery: 4, Depth: 0, AllowMixed: true,
+	runCrashDeck(t, "C12", "main", Options{Prop: "C12", Knobs: k, CloneEvery: 4, PostSyncEvery: 3, Depth: 0, AllowMixed: true,
 		Setup: func(r *dbcheck.Run) {
 			// NoSync writes and DisableWAL half of the time: Flush/Close are the only durability points.
 			r.Cfg.DisableWAL = r.Rng().IntN(2) == 0
@@ -112,7 +112,7 @@ func TestVerifC13Ingest(t *testing.T) {
 func TestVerifC22(t *testing.T) {
 	k := baseKnobs("C22")
 	k.Ingest, k.Excise, k.MaintHeavy, k.Reopen, k.Ratchet = true, true, true, true, true
-	runCrashDeck(t, "C22", "main", Options{Prop: "C22", Knobs: k, CloneEvery: 3, Depth: 1, AllowMixed: true, VersionOracle: true,
+	runCrashDeck(t, "C22", "main", Options{Prop: "C22", Knobs: k, CloneEvery: 3, PostSyncEvery: 4, Depth: 1, AllowMixed: true, VersionOracle: true,
 		Setup: func(r *dbcheck.Run) {
 			// rotate the MANIFEST on every edit in a third of the histories
 			r.Cfg.MaxManifest = []int64{1, 1 << 10, 128 << 20}[r.Rng().IntN(3)]
